@@ -141,6 +141,19 @@ register(
     "DESIGN.md §3 C04",
 )
 
+register(
+    "C11",
+    "bounded-exhaustive enumeration of physical encodings produced by independent OUTPUT4/OUTPUT2 encoders that are re-bound on every run to the Nastran-written sample files (byte-for-byte reproduction); explicit-state exploration of reader positions over all skip/read sequences",
+    "For every matrix of the bounded space every permitted encoding (precision, key width, byte order, layout, every "
+    "composition of each non-zero run into strings, trailer convention, ASCII exponent letter/width/1P/I16/name "
+    "padding; OP2 header label, EOF key, table records in every composition of parts, all block orders with repeated "
+    "names) is generated and decoded by pyYeti; decoded content, listings incl. byte ranges, every subset read and the "
+    "file offset after every skip/read sequence are compared with the encoder's ground truth.",
+    "Trusted: the encoders, as far as they reproduce all 44 sample files on every run; 64-bit OP2 matrix blocks are by "
+    "analogy (no Nastran sample).",
+    "DESIGN.md §3 C11",
+)
+
 
 def build():
     checks = []
